@@ -50,8 +50,11 @@ class ConstantExpressionEvaluator:
                 value = self.context.sizeof(expr.sizeof_typ.typ)
         elif isinstance(expr, int):
             value = expr
-        else:  # pragma: no cover
-            raise NotImplementedError(str(expr))
+        else:
+            self.context.error(
+                "Expression is not a compile time constant",
+                getattr(expr, "location", None),
+            )
         return value
 
     def convert(self, value, typ):
@@ -156,6 +159,24 @@ class ConstantExpressionEvaluator:
             op_map["^"] = lambda x, y: x ^ y
         else:
             op_map["/"] = lambda x, y: x / y
+
+        for operand in (lhs, rhs):
+            if not isinstance(operand, (int, float)):
+                self.context.error(
+                    "Unsupported operand in constant expression",
+                    expr.location,
+                )
+
+        if op in ["/", "%"] and rhs == 0:
+            self.context.error(
+                "Division by zero in constant expression", expr.location
+            )
+
+        if op not in op_map:
+            self.context.error(
+                f"Operator {op} not supported in constant expression",
+                expr.location,
+            )
 
         value = self.convert(op_map[op](lhs, rhs), expr.typ)
         return value
